@@ -107,7 +107,7 @@ func checkC17(c c17Case, ctx *vCtx) *vFailure {
 	err, pan := call(&full)
 	ctx.Run(1)
 	if err != nil || pan != "" {
-		vFault("C17: %s fails with a healthy writer: %v %s", name, err, pan)
+		vViolate("C17: %s fails with a healthy writer: %v %s", name, err, pan)
 	}
 	n := full.Len()
 	ctx.Label("cmd:" + name)
@@ -383,7 +383,7 @@ func checkC17Sweep(c c17SweepCase, ctx *vCtx) *vFailure {
 	}
 	var full bytes.Buffer
 	if err, pan := call(&full); err != nil || pan != "" {
-		vFault("C17 sweep: %s fails with a healthy writer: %v %s", cmd.Name, err, pan)
+		vViolate("C17 sweep: %s fails with a healthy writer: %v %s", cmd.Name, err, pan)
 	}
 	ctx.Run(1)
 	n := full.Len()
